@@ -6,6 +6,7 @@ import ast
 from dataclasses import dataclass
 
 from ..core import AnalysisError, Check, dotted, forwarding_problems, norm, strip_docstring, walk_no_nested
+from ..interp import Sym, SymInterp
 from ..variants import Variant
 
 LOSSES = "fit/losses.py"
@@ -292,15 +293,45 @@ class C20(Check):
         for f in res:
             q = f.name
             body = strip_docstring(f.body)
-            sim = [i for i, s in enumerate(body) if "Simulator(" in norm(s)]
-            ups = [i for i, s in enumerate(body) if isinstance(s, ast.For) and norm(s.iter) in ("settings.p_names", "settings.v_names")
-                   and any(isinstance(c, ast.Call) and norm(c.func) in ("model.update_parameter", "model.update_variable")
-                           and norm(c.args[1]) == f"updates[{norm(s.target)}]" for c in ast.walk(s))]
-            if len(ups) == 2 and sim and max(ups) < sim[0]:
-                self.holds("L3", ROUT, q, "apply-before-simulate", body[ups[0]], "candidate parameter and initial values applied before the simulation")
+            # order of effects on every path (epoch-tagged summaries): [y0] -> candidate parameters / initial values -> simulation
+            import re
+
+            class I(SymInterp):
+                loop_unroll = 1
+                epochs = True
+
+            out3 = I().run_function(f, Sym())
+            paths3 = [st for st, _ in out3.returns]
+            P = "settings.model.update_parameter(ITEM(0, settings.p_names), updates[ITEM(0, settings.p_names)])"
+            V = "settings.model.update_variable(ITEM(0, settings.v_names), updates[ITEM(0, settings.v_names)])"
+            Y = "settings.model.update_variables(settings.y0)"
+            seen_full = False
+            bad3 = ""
+            for st in paths3:
+                calls = [e[1] for e in st.events if e[0] == "call"]
+                texts = " ".join(c for c, _ in st.conds) + " ".join(str(e[-1]) for e in st.events)
+                ks = [int(k_) for k_ in re.findall(r"AT\((\d+), Simulator\(", texts)]
+                if not ks:
+                    continue
+                k_sim = min(ks)
+                ups = [i for i, c in enumerate(calls) if c in (P, V)]
+                other_updates = [c for c in calls if c.startswith("settings.model.update") and c not in (P, V, Y)]
+                if P in calls and V in calls:
+                    seen_full = True
+                if other_updates:
+                    bad3 = f"`{other_updates[0][:80]}` is not a candidate value written under its own name"
+                if ups and max(ups) >= k_sim:
+                    bad3 = "candidate values are written after the simulation was started"
+                if Y in calls and ups and calls.index(Y) > min(ups):
+                    bad3 = "the fixed initial conditions (y0) are written after the candidate values and overwrite fitted initial values"
+                if any(c == "settings.y0 is None" and not p_ for c, p_ in st.conds) and Y not in calls:
+                    bad3 = "the supplied y0 is not applied"
+            anchor3 = [s_ for s_ in body if isinstance(s_, ast.For)]
+            if seen_full and not bad3:
+                self.holds("L3", ROUT, q, "apply-before-simulate", anchor3[0] if anchor3 else f, "y0 first, then candidate parameter and initial values, all before the simulation")
             else:
-                self.violated("L3", ROUT, q, "apply-before-simulate", f, "candidate values are not (all) applied to the model before it is simulated",
-                              witness="the residual is evaluated at the previous candidate: the reported loss does not belong to the reported parameters")
+                self.violated("L3", ROUT, q, "apply-before-simulate", f, bad3 or "candidate values are not (all) applied to the model before it is simulated",
+                              witness="the residual is evaluated at the previous candidate / the fitted initial value is overwritten by y0: the reported loss does not belong to the reported parameters")
             m = [s for s in body if isinstance(s, ast.Match)]
             if not m:
                 self.undecided_ob("L3", ROUT, q, "failure-to-inf", f, "result dispatch not recognised")
@@ -390,6 +421,8 @@ class C20(Check):
             Variant("variable-candidates-routed-by-parameter-names", ROUT, "time_course", "v_names=[i for i in p0 if i in v_names]", "v_names=[i for i in p0 if i in p_names]", expect="L5|", quick=True),
             Variant("ensemble-drops-loss", ROUT, "ensemble_time_course", "loss_fn=loss_fn", "loss_fn=losses.rmse", expect="L5|"),
             Variant("carousel-crosses-options", ROUT, "carousel_steady_state", "y0=y0", "y0=None", expect="L5|"),
+            Variant("y0-after-candidates", ROUT, "time_course_residual", "    if (y0 := settings.y0) is not None:\n        model.update_variables(y0)\n    for p in settings.p_names:\n        model.update_parameter(p, updates[p])\n    for p in settings.v_names:\n        model.update_variable(p, updates[p])\n",
+                    "    for p in settings.p_names:\n        model.update_parameter(p, updates[p])\n    for p in settings.v_names:\n        model.update_variable(p, updates[p])\n    if (y0 := settings.y0) is not None:\n        model.update_variables(y0)\n", expect="L3|", quick=True),
             Variant("joint-ignores-flag", ROUT, "joint_steady_state", "model=deepcopy(i.model) if as_deepcopy else i.model", "model=i.model", expect="L2|"),
             Variant("carousel-forces-false", ROUT, "carousel_time_course", "as_deepcopy=as_deepcopy", "as_deepcopy=False", expect="L2|"),
             Variant("failure-to-zero", ROUT, "time_course_residual", "return cast(float, np.inf)", "return 0.0", expect="L3|", quick=True),
